@@ -97,6 +97,16 @@ def cross_read():
                 if n.exc.args and isinstance(n.exc.args[0], ast.Constant) and "blocking function" in str(n.exc.args[0].value):
                     confirmed = True
     facts["trio.from_thread.run raises bare RuntimeError when called in the trio thread"] = confirmed
+    # --- trio.from_thread.run refuses (bare RuntimeError) in ANY thread that is running a trio task, whichever run it is
+    tree = _parse(os.path.join(sp, "trio/_threads.py")) if sp else None
+    confirmed = None
+    if tree is not None:
+        confirmed = False
+        for n in ast.walk(tree):
+            if isinstance(n, ast.Try) and any(isinstance(c, ast.Call) and ast.unparse(c.func).endswith("current_task") for b in n.body for c in ast.walk(b)):
+                if any(isinstance(r, ast.Raise) and "blocking function" in ast.unparse(r) for b in n.orelse for r in ast.walk(b)):
+                    confirmed = True
+    facts["trio.from_thread.run raises its bare RuntimeError whenever the calling thread runs ANY trio task (current_task() succeeds), not only in the target run's thread"] = confirmed
     # --- leaving a `with` block on a trio memory channel closes that end
     tree = _parse(os.path.join(sp, "trio/_channel.py")) if sp else None
     confirmed = None
